@@ -336,6 +336,12 @@ func (eng *Engine) initExterns() {
 	}
 	E["strconv.Atoi"] = parse2("atoi")
 	E["strconv.ParseFloat"] = parse2("parsefloat") // bitSize is not modelled (a constant 64 in this code base)
+	E["strconv.ParseUint"] = func(x *Exec, st *State, cc *ssa.CallCommon, fn *ssa.Function, args []Val, resT types.Type, k func(*State, Val)) {
+		tb(x, envNote)
+		v := UF(SI, "parseuint.val", args[0].(Term), args[1].(Term), args[2].(Term))
+		st.assume(st.typeConstraint(v, types.Typ[types.Uint64]))
+		k(st, &TupleVal{[]Val{v, UF(SI, "parseuint.err", args[0].(Term), args[1].(Term), args[2].(Term))}})
+	}
 	E["strconv.ParseInt"] = func(x *Exec, st *State, cc *ssa.CallCommon, fn *ssa.Function, args []Val, resT types.Type, k func(*State, Val)) {
 		tb(x, envNote)
 		v := UF(SI, "parseint.val", args[0].(Term), args[1].(Term), args[2].(Term))
